@@ -113,7 +113,9 @@ TDeleteClocks == pend = {} /\ UNCHANGED pend /\ IsEv("DeleteClocks") /\ DeleteCl
 
 TClockLeap == pend = {} /\ UNCHANGED pend /\ IsEv("ClockLeap") /\ ClockLeap(ev.r) /\ StateMatches(ev) /\ UNCHANGED digests
 
-TraceNext == TClockLeap \/ TFetchRefused \/ TMergeBegin \/ TMergeEnd \/ Reset \/ TNewBug \/ TEdit \/ TRead \/ TPush \/ TFetch \/ TMerge \/ TMergeNone \/ TReopen \/ TDeleteClocks
+TPlant == pend = {} /\ UNCHANGED pend /\ IsEv("Plant") /\ ev.m \in Remote /\ PlantForeign(ev.r, ev.m, RkOf(ev)) /\ ev.b = res'.b /\ StateMatches(ev) /\ UNCHANGED digests
+
+TraceNext == TPlant \/ TClockLeap \/ TFetchRefused \/ TMergeBegin \/ TMergeEnd \/ Reset \/ TNewBug \/ TEdit \/ TRead \/ TPush \/ TFetch \/ TMerge \/ TMergeNone \/ TReopen \/ TDeleteClocks
 
 TraceSpec == TraceInit /\ [][TraceNext]_tvars
 
